@@ -26,7 +26,7 @@ ASSUMPTIONS = [
     "a register capture without suffix matches the bound register at any width",
 ]
 KINDS = ["inst", "operand", "operand", "genreg", "genreg", "indreg", "stackreg", "basereg"]
-MUTATORS = ["none", "none", "none", "prefix-ext", "prefix-ext", "other-member", "wrong-width", "non-member", "swap-names", "last-operand", "unrelated-op", "def-empty", "def-non-member", "def-wrong-width"]
+MUTATORS = ["none", "none", "none", "prefix-ext", "prefix-ext", "other-member", "wrong-width", "non-member", "swap-names", "last-operand", "unrelated-op", "def-empty", "def-non-member", "def-wrong-width", "case-variant"]
 FLOORS = {"kind=inst": 0.08, "kind=operand": 0.12, "kind=regfam": 0.16, "mut=prefix-ext": 0.06, "expect=found": 0.25, "near-miss": 0.3, "kind=deref-field": 0.08, "deref-keys=permuted": 0.04}
 
 # operands with prefix / extension relatives (att, norm)
@@ -91,13 +91,22 @@ def cases(draw):
     sites = []  # (spine index, operand index or None, name index) of later occurrences
     defs = []  # (spine index, operand index, name index, width suffix or None) of first occurrences at operand level
 
+    used_shipped = []
+
     def free_group():
         b = draw(instruction_body())
         assume(" " not in "".join(b[1]))
         d = describe_inst(draw, ("0", b[0], b[2]), full)
-        which = draw(st.sampled_from(["item", "$or", "$not", "times", "$not-times", "$or-times", "$and-times", "$and_any_order"]))
+        which = draw(st.sampled_from(["item", "$or", "$not", "times", "$not-times", "$or-times", "$and-times", "$and_any_order", "shipped-macro"]))
         if which == "item":
             return d, [list(b)]
+        if which == "shipped-macro":
+            # a capture-free use of the shipped macro library before / between capture sites: whatever it expands to must
+            # not contain a capturing group of its own (group numbers are registration order)
+            used_shipped.append(True)
+            if draw(st.booleans()):
+                return "@any_shift", [[draw(st.sampled_from(["shr", "shl", "sal", "sar"])), ["$0x2", "%rdx"], ["0x2", "%rdx"]]]
+            return "@any_rot", [[draw(st.sampled_from(["rol", "ror"])), ["%cl", "%rdx"], ["%cl", "%rdx"]]]
         if which == "$or":
             alts = [d, "zz"] if draw(st.booleans()) else [{"qq": ["zz"]}, d]
             return {"$or": alts}, [list(b)]
@@ -223,7 +232,22 @@ def cases(draw):
         si, oi, qi = draw(st.sampled_from(pref or sites))
         n = names[qi]
         inst = spine[si][1][0]
-        if n["kind"] == "inst":
+        if mut == "case-variant":
+            # the later occurrence differs from the bound text in the case of one letter only: not identical text
+            if n["kind"] == "inst":
+                inst[0] = inst[0][:-1] + inst[0][-1].upper() if inst[0][-1].islower() else inst[0] + "X"
+                applied = "case-variant"
+            else:
+                cur = inst[2][oi]
+                att = inst[1][oi]
+                pos_ = [z for z, ch in enumerate(cur) if ch.isalpha() and ch.islower()]
+                if pos_ and att.lstrip("$") == cur:  # registers and immediates: the listing text and the normal form coincide
+                    z = pos_[-1]
+                    new_ = cur[:z] + cur[z].upper() + cur[z + 1:]
+                    inst[1][oi] = att[: len(att) - len(cur)] + new_
+                    inst[2][oi] = new_
+                    applied = "case-variant"
+        elif n["kind"] == "inst":
             if mut in ("last-operand", "prefix-ext", "unrelated-op", "other-member", "non-member", "wrong-width") and inst[1]:
                 o = draw(st.sampled_from(OPERANDS))
                 if o[1] != inst[2][-1]:
@@ -289,7 +313,8 @@ def cases(draw):
         L.append([format(a, "x"), m, list(oa), list(on)])
         a += draw(st.integers(1, 7))
     multi = any(v >= 2 for v in occurrences.values())
-    return {"flags": list(full), "mut": applied if mut != "none" else "none", "asked": mut, "listing": L, "pattern": pattern, "kinds": sorted({n["kind"] for n in names}), "multi": multi}
+    return {"flags": list(full), "mut": applied if mut != "none" else "none", "asked": mut, "listing": L, "pattern": pattern, "kinds": sorted({n["kind"] for n in names}), "multi": multi,
+            "shipped": bool(used_shipped)}
 
 
 # ---------------------------------------------------------------------------------- captures in $deref fields
@@ -480,8 +505,20 @@ def evaluate(case):
         ev.sample = {"mut": case["mut"], "pattern": pattern, "stream": stream_sample(L), "expected_found": exp}
         return ev
     mn_full, op_full = case.get("flags", [False, False])
-    exp, spans, _ = compare(ev, pattern, L, mn_full or None, op_full or None)
-    ev.tags = (["flags=full"] if (mn_full or op_full) else []) + [f"mut={case['mut']}", "expect=found" if exp else "expect=notfound"] + [f"kind={k}" for k in case["kinds"]]
+    if case.get("shipped"):
+        # the documented meaning of the shipped macros, written down here (not read from the file under test)
+        meaning = {"@any_shift": {"$or": ["shr", "shl", "sal", "sar"]}, "@any_rot": {"$or": ["rol", "ror"]}}
+        from vlib.gen_listing import norm_view
+        from vlib.gen_rules import SHIPPED_MACROS
+        from vlib.refmatch import Ref
+
+        expanded = [meaning.get(x, x) if isinstance(x, str) else x for x in pattern]
+        spans0 = Ref(norm_view(L), bool(mn_full), bool(op_full)).spans(expanded)
+        exp, spans, _ = compare(ev, pattern, L, mn_full or None, op_full or None, spans=spans0, macros_files=[SHIPPED_MACROS])
+        ev.tags.append("shipped-macros")
+    else:
+        exp, spans, _ = compare(ev, pattern, L, mn_full or None, op_full or None)
+    ev.tags = ev.tags + (["flags=full"] if (mn_full or op_full) else []) + [f"mut={case['mut']}", "expect=found" if exp else "expect=notfound"] + [f"kind={k}" for k in case["kinds"]]
     near = case["mut"] != "none"
     if near:
         ev.tags.append("near-miss")
